@@ -639,10 +639,11 @@ def St.dispatch (s : St) (it : Item) : St × List Ev :=
     let s2 := if res ≠ 0 && s1.fault.isNone then (s1.sigDel reg).1 else s1
     ({ s2 with freed := if s2.fault.isNone then cid :: s2.freed else s2.freed }, .cb .sig d sig 0 :: evs)
 
-/-- GHOST: the check word that identifies the registration behind a queued item -/
+/-- GHOST: the check word that identifies the registration behind a queued item; 0 when the slot is not in
+    JOBLIST state (no registration is being dispatched: the real dispatch function asserts) -/
 def St.regCheck (s : St) : Item → Nat
-  | .timer i => (s.timerSlot i).check
-  | .fd i => (s.pe i).check
+  | .timer i => if (s.timerSlot i).state == .joblist then (s.timerSlot i).check else 0
+  | .fd i => if (s.pe i).state == .joblist then (s.pe i).check else 0
   | _ => 0
 
 /-- `qb_loop_run_level` with `n` further dispatches allowed -/
